@@ -993,7 +993,7 @@ func EdgeFact(g *cfgq.Graph, b *cfg.Block, succ int, match func(cfgq.Fact) bool)
 		return false
 	}
 	cc, _ := b.Succs[0].Stmt.(*ast.CaseClause)
-	if cc == nil || len(cc.List) != 1 {
+	if cc == nil {
 		return false
 	}
 	path := core.PathTo(g.Body, cc)
@@ -1001,8 +1001,14 @@ func EdgeFact(g *cfgq.Graph, b *cfg.Block, succ int, match func(cfgq.Fact) bool)
 		return false
 	}
 	sw, ok := path[len(path)-3].(*ast.SwitchStmt)
-	if !ok || sw.Tag != nil {
+	if !ok {
 		return false
+	}
+	if sw.Tag != nil { // `switch tag { case v: }`: the edge into the body means tag == v, the other one tag != v
+		return match(cfgq.Fact{Expr: &ast.BinaryExpr{X: sw.Tag, Op: token.EQL, Y: cond}, Val: succ == 0})
+	}
+	if len(cc.List) != 1 && succ == 0 {
+		return false // `case a, b:` entered through a: only a disjunction is known
 	}
 	for _, f := range cfgq.Facts(cond, succ == 0) {
 		if match(f) {
